@@ -78,23 +78,30 @@ pub fn run(prop: &'static str, tier: &str) -> i32 {
         let slow = matches!(p, Proto::V1P | Proto::V3P);
         plan.push((p, if quick && slow { 3 } else { 5 }, 0, None));
     }
-    if quick {
-        plan.push((Proto::V4L, 10, 0, Some(5)));
+    // feature-configuration builds repeat the small closures and the short sequences only (the full-size
+    // exploration is the all-features build's; here the question is whether THIS build behaves differently)
+    let cfg_mode = crate::report::profile().starts_with("cfg-");
+    if cfg_mode {
+        plan.push((Proto::workhorse(), 10, 0, Some(3)));
+    } else if quick {
+        plan.push((Proto::workhorse(), 10, 0, Some(5)));
         // the other frozen clocks (exp crossing midnight / the year, leap day) on the small model
         for ci in 1..clks.len() {
-            plan.push((Proto::V4L, 3, ci, None));
+            plan.push((Proto::workhorse(), 3, ci, None));
         }
     } else {
-        plan.push((Proto::V4L, 10, 0, None));
+        plan.push((Proto::workhorse(), 10, 0, None));
         for ci in 1..clks.len() {
-            plan.push((Proto::V4L, 9, ci, None));
+            plan.push((Proto::workhorse(), 9, ci, None));
         }
-        plan.push((Proto::V4P, 9, 0, None));
-        plan.push((Proto::V2L, 9, 1, None));
+        plan.push((Proto::V4P.or_workhorse(), 9, 0, None));
+        plan.push((Proto::V2L.or_workhorse(), 9, 1, None));
         for ci in 1..clks.len() {
-            plan.push((Proto::V3L, 5, ci, None));
+            plan.push((Proto::V3L.or_workhorse(), 5, ci, None));
         }
     }
+    plan.sort();
+    plan.dedup();
     for (p, nkeys, ci, depth) in plan {
         let t = std::time::Instant::now();
         let before = REPLAYS.load(Ordering::Relaxed);
@@ -120,8 +127,8 @@ pub fn run(prop: &'static str, tier: &str) -> i32 {
     }
 
     // ---- engine A: every call sequence up to a depth, unmerged, through the same judge
-    let depth = if quick { 4 } else { 5 };
-    let seq_model = BuilderModel { proto: Proto::V4L, t0_ns: clks[0], nkeys: 10 };
+    let depth = if cfg_mode { 3 } else if quick { 4 } else { 5 };
+    let seq_model = BuilderModel { proto: Proto::workhorse(), t0_ns: clks[0], nkeys: 10 };
     let alphabet = seq_model.alphabet();
     let firsts: Vec<usize> = (0..alphabet.len()).collect();
     let accs = par_units(&firsts, |first| {
@@ -135,11 +142,11 @@ pub fn run(prop: &'static str, tier: &str) -> i32 {
                 if path.last() != Some(&Op::Build) {
                     return; // only histories ending in a build add an observation
                 }
-                let v = replay_and_judge(Proto::V4L, clks[0], &path);
+                let v = replay_and_judge(Proto::workhorse(), clks[0], &path);
                 acc.executions += 1;
                 acc.see(&path);
                 acc.bump(if pick(prop, &v).is_some() { "sequence:disagrees" } else { "sequence:conforms" });
-                record(prop, Proto::V4L, clks[0], &path, &v, &mut acc);
+                record(prop, Proto::workhorse(), clks[0], &path, &v, &mut acc);
                 if acc.samples.is_empty() && len == depth {
                     acc.sample(json!({"engine": "A", "history": describe(&path), "verdict": "conforms"}));
                 }
@@ -200,7 +207,7 @@ pub fn run(prop: &'static str, tier: &str) -> i32 {
     //      "lease" is one more custom claim: the default exp / iat / nbf are untouched
     if prop == "C13" {
         let mut acc = Acc::default();
-        for p in [Proto::V4L, Proto::V2L, Proto::V4P] {
+        for p in { let mut v = vec![Proto::workhorse(), Proto::V2L.or_workhorse(), Proto::V4P.or_workhorse()]; v.sort(); v.dedup(); v } {
             let key = crate::domains::key_pool(p)[0].clone();
             let t0 = clks[0];
             crate::adapter::set_clock(Some(time::OffsetDateTime::from_unix_timestamp_nanos(t0).unwrap()));
@@ -342,7 +349,7 @@ pub fn run(prop: &'static str, tier: &str) -> i32 {
     // ---- pairs of keys that differ by case, white space or Unicode normalisation are different keys
     if prop == "C17" {
         let near: [&str; 9] = ["role", "Role", "ROLE", "role ", " role", "role\n", "r\u{00f4}le", "ro\u{0302}le", "rol"];
-        let key = crate::domains::key_pool(Proto::V4L)[0].clone();
+        let key = crate::domains::key_pool(Proto::workhorse())[0].clone();
         let mut acc = Acc::default();
         crate::adapter::freeze_default_clock();
         for a in near {
@@ -352,7 +359,7 @@ pub fn run(prop: &'static str, tier: &str) -> i32 {
                     crate::adapter::BOp::Claim(crate::adapter::ClaimSpec::auto(b, json!("second"))),
                     crate::adapter::BOp::Build,
                 ];
-                let (ev, _) = crate::adapter::with_rng_script(vec![vec![1u8; 32]], || crate::adapter::build_history(Proto::V4L, crate::adapter::Layer::Prelude, &key.sk, &ops));
+                let (ev, _) = crate::adapter::with_rng_script(vec![vec![1u8; 32]], || crate::adapter::build_history(Proto::workhorse(), crate::adapter::Layer::Prelude, &key.sk, &ops));
                 acc.executions += 1;
                 acc.see(&(a, b));
                 let built_ok = matches!(ev.last(), Some(crate::adapter::BEvent::Built(crate::adapter::Out::Ok(_))));
@@ -377,7 +384,7 @@ pub fn run(prop: &'static str, tier: &str) -> i32 {
     if prop == "C17" {
         use crate::adapter::{BEvent, BOp, ClaimSpec, ErrClass, Layer, Out};
         let counts: Vec<usize> = if quick { vec![2, 3, 127, 128, 129, 255, 256, 257, 258, 511, 512, 513, 65_535, 65_536, 65_537] } else { (2..=1_030).chain([4_095, 4_096, 4_097, 65_535, 65_536, 65_537, 65_538, 131_072, 131_073]).collect() };
-        let units: Vec<(Proto, usize)> = [Proto::V4L, Proto::V2P].iter().flat_map(|p| counts.iter().map(move |n| (*p, *n))).collect();
+        let units: Vec<(Proto, usize)> = { let mut v = vec![Proto::workhorse(), Proto::V2P.or_workhorse()]; v.sort(); v.dedup(); v }.iter().flat_map(|p| counts.iter().map(move |n| (*p, *n))).collect();
         let accs = crate::explore::par_units(&units, |(p, n)| {
             let mut acc = Acc::default();
             let key = crate::domains::key_pool(*p)[0].clone();
@@ -437,7 +444,7 @@ pub fn run(prop: &'static str, tier: &str) -> i32 {
         let mut keys: Vec<String> = vec!["k".repeat(64), "k".repeat(65), "https://example.com/claims/".to_string() + &"segment/".repeat(12), "k".repeat(300), format!("{}\u{e9}{}", "k".repeat(63), "z".repeat(10)), "k".repeat(5_000)];
         keys.extend(crate::domains::hostile_texts().into_iter().filter(|h| !h.is_empty()));
         let mut acc = Acc::default();
-        for p in [Proto::V4L, Proto::V2P].into_iter().filter(|p| p.enabled()) {
+        for p in { let mut v = vec![Proto::workhorse(), Proto::V2P.or_workhorse()]; v.sort(); v.dedup(); v } {
             let key = crate::domains::key_pool(p)[0].clone();
             crate::adapter::freeze_default_clock();
             for k in &keys {
